@@ -732,7 +732,7 @@ def judge(sc, dev, P, res, store, before, state):
     #                  remaining behaviour open, so only the invariants above apply to it)
     fragile = False
     if not V and P["relax"] != 0:
-        tag = ("[%s]" % P["perf"].rstrip("0123456789")) if P["perf"] != "off" else ""
+        tag = "[perf-caps]" if P["perf"] != "off" else ""
         mm, fragile = _ref_mismatches(sc, P, m, per_graph, o, tag)
         if mm and (P["dedupe"] or P["visited"]):
             # the statement does not say what the dedupe window / visited cap do to the walk: accept the
@@ -741,8 +741,11 @@ def judge(sc, dev, P, res, store, before, state):
             mm2, fr2 = _ref_mismatches(sc, Pi, m, per_graph, o, tag)
             if fr2 or len(mm2) < len(mm):
                 mm, fragile = mm2, fr2
-        for sig, what in mm:
-            V.append((sig, what + desc))
+        if mm:
+            # one signature per failing case: the most fundamental disagreement (values, then order, then sets, then counters)
+            prio = ["ref:activation", "ref:pop-trace", "ref:deltas", "ref:counter", "ref:max_delta"]
+            mm.sort(key=lambda x: min(i for i, pfx in enumerate(prio) if x[0].startswith(pfx)))
+            V.append((mm[0][0], mm[0][1] + "; all disagreements: " + ", ".join(x[0] for x in mm) + desc))
     outcome = 0
     for x in (len(all_seeds), len(deltas), min(m["pops"], 6), min(m["iters"], 3), min(m["propagations"], 6),
               int(m["radius_cap_hits"] > 0), int(m["layer_cap_hits"] > 0), int(m["node_budget_hits"] > 0),
